@@ -136,6 +136,7 @@ TIE = {
     'C06': ('the constants EXPRESSION_PARTS/_INLINE_NEEDS_PARENTHESES', 'gen_rule_is_new_rule, gen_expression_parts_is_model, gen_rule_names_are_modelled'),
     'C11': ('CallDetails.calculate_index', 'gen_calculate_index_eq'),
     'C15': ('the four limits of recursion.py', 'gen_limits_are_documented_limits'),
+    'C19': ('the constants _IGNORE_FOLDERS/_OPENED_FILE_LIMIT/_PARSED_FILE_LIMIT', 'gen_ignore_folders_and_limits'),
     'C20': ('_remove_duplicates_from_path', 'gen_remove_duplicates_eq'),
 }
 
